@@ -9,6 +9,9 @@
 #include <string.h>
 #include <stdarg.h>
 #include <sys/stat.h>
+#include <signal.h>
+#include <unistd.h>
+#include <sys/time.h>
 
 static struct {
         const char *name, *prop, *replay_dir;
@@ -21,6 +24,9 @@ static struct {
         int tier;      /* 0 quick 1 thorough */
         char extra[2048];
 } SW;
+
+static void sw_on_crash(int sig);
+static void sw_on_watchdog(int sig);
 
 static void sw_set_insert(uint64_t h)
 {
@@ -60,8 +66,34 @@ static void sw_init(int argc, char **argv, const char *name)
         SW.tier = !strcmp(sw_args(argc, argv, "--tier", "quick"), "thorough");
         SW.t0 = mcx_now();
         w_prop = SW.prop;
+        signal(SIGSEGV, sw_on_crash); signal(SIGBUS, sw_on_crash); signal(SIGFPE, sw_on_crash); signal(SIGABRT, sw_on_crash); signal(SIGILL, sw_on_crash);
+        { struct itimerval itv = {{5, 0}, {5, 0}}; signal(SIGALRM, sw_on_watchdog); setitimer(ITIMER_REAL, &itv, NULL); }
         wcfg_defaults(&W);
         W.merge_doomed = 0;
+}
+
+static const uint8_t *sw_cur_bytes; static int sw_cur_n; static const char *sw_cur_setvars;
+static void sw_violation(const uint8_t *bytes, int n, const char *setvars);
+static int sw_finish(const char *tag);
+static void sw_on_crash(int sig)
+{
+        signal(sig, SIG_DFL);
+        mcx_violation_clear();
+        mcx_violation(SW.prop, "C03: fatal signal %d (%s) while the real code processed this input", sig, sig == SIGSEGV ? "SIGSEGV" : sig == SIGABRT ? "SIGABRT (assertion or abort)" : sig == SIGALRM ? "watchdog: no progress for 15 s" : "signal");
+        if (sw_cur_bytes) sw_violation(sw_cur_bytes, sw_cur_n, sw_cur_setvars);
+        else { SW.violations++; snprintf(SW.msg, sizeof SW.msg, "%s", mcx_violation_msg()); }
+        sw_finish("crash");
+        fflush(stdout);
+        _exit(1);
+}
+
+static uint64_t sw_wd_last; static int sw_wd_strikes;
+static void sw_on_watchdog(int sig)
+{
+        (void)sig;
+        uint64_t now = SW.runs + SW.cases + WS.canary_checks;
+        if (now == sw_wd_last) { if (++sw_wd_strikes >= 3) sw_on_crash(SIGALRM); }
+        else { sw_wd_strikes = 0; sw_wd_last = now; }
 }
 
 static int sw_expired(void)
@@ -121,7 +153,9 @@ static void sw_violation(const uint8_t *bytes, int n, const char *setvars)
 static int sw_feed(const uint8_t *bytes, int n, const char *setvars)
 {
         mcx_violation_clear();
+        sw_cur_bytes = bytes; sw_cur_n = n; sw_cur_setvars = setvars;
         int calls = world_run_bytes(bytes, n);
+        sw_cur_bytes = NULL;
         SW.calls += (uint64_t)calls;
         SW.runs++;
         if (mcx_violated()) { sw_violation(bytes, n, setvars); return 1; }
